@@ -1280,7 +1280,19 @@ impl<'g, 'r> ProgGen<'g, 'r> {
         if cases.is_empty() {
             return self.assign_stmt(fc);
         }
-        Stmt::Switch(Expr::var(&name), cases, default)
+        // the operand is a variable or a small computed value (it then stays in the accumulator
+        // from one case to the next)
+        let operand = if !ty.signed() && self.g.chance(1, 3) {
+            self.label("switch-on-expression");
+            match self.g.below(3) {
+                0 => Expr::bin(BinOp::And, Expr::var(&name), Expr::lit(7)),
+                1 => Expr::bin(BinOp::Add, Expr::var(&name), Expr::lit(1)),
+                _ => Expr::bin(BinOp::Xor, Expr::var(&name), Expr::lit(2)),
+            }
+        } else {
+            Expr::var(&name)
+        };
+        Stmt::Switch(operand, cases, default)
     }
 
     fn asm_stmt(&mut self, fc: &mut FnCtx) -> Stmt {
@@ -1331,7 +1343,27 @@ impl<'g, 'r> ProgGen<'g, 'r> {
                 *g.pick(&[0, 1, 11, 12, 40])
             }
         };
-        match self.g.below(17) {
+        match self.g.below(19) {
+            17 | 18 if ord.len() >= 2 => {
+                // an explicit load of a value the accumulator already holds, while the flags
+                // describe something else, followed by a store and an ordinary load
+                self.label("load-of-known-value");
+                let kk = self.g.range(0, 200) as i32;
+                let a = self.g.pick(&ord).clone();
+                let b = ord.iter().find(|n| **n != a).cloned().unwrap();
+                let reg = if fc.protected.contains("X") { "Y" } else { "X" };
+                let target = if self.g.chance(1, 2) { LValue::Var(hv(self.g)) } else { LValue::Deref(hr(self.g)) };
+                let mut v = vec![Stmt::Expr(Expr::assign(LValue::Var(a.clone()), Expr::lit(kk)))];
+                if !fc.protected.contains(reg) {
+                    v.push(Stmt::Expr(Expr::assign(LValue::Var(reg.into()), Expr::var(&b))));
+                } else {
+                    v.push(Stmt::Expr(Expr::IncDec(true, false, LValue::Var(b.clone()))));
+                }
+                v.push(Stmt::Load(Expr::lit(kk)));
+                v.push(Stmt::Store(target));
+                v.push(Stmt::Expr(Expr::assign(LValue::Var(a), Expr::lit(kk + 1))));
+                v
+            }
             15 | 16 if !ord.is_empty() => {
                 // a branch (else part, or last case of a switch) that consists of inline assembler
                 // only: nothing may fall into it, nothing may skip it
@@ -1734,7 +1766,30 @@ impl<'g, 'r> ProgGen<'g, 'r> {
         let arrs = self.arrays(fc, Some(true), true);
         let px = fc.protected.contains("X");
         let py = fc.protected.contains("Y");
-        match self.g.below(20) {
+        match self.g.below(23) {
+            20 | 21 | 22 => {
+                // a switch whose last case ends in `break` (a jump to the label that follows it),
+                // then the constant of that case is needed again: what one path left in a register
+                // is not what the other paths left
+                let kk = self.g.range(1, 9) as i32;
+                let k1 = kk + 1 + self.g.below(5) as i32;
+                let sel = b.clone();
+                let others: Vec<String> = v8.iter().map(|x| x.0.clone()).filter(|n| *n != a && *n != sel).collect();
+                let c = if others.is_empty() { a.clone() } else { self.g.pick(&others).clone() };
+                let first = Case { labels: vec![1], body: vec![Stmt::Expr(Expr::assign(LValue::Var(a.clone()), Expr::lit(k1))), Stmt::Break] };
+                let last_body = vec![Stmt::Expr(Expr::assign(LValue::Var(a.clone()), Expr::lit(kk))), Stmt::Break];
+                let sw = if self.g.chance(1, 2) {
+                    Stmt::Switch(Expr::var(&sel), vec![first], Some(last_body))
+                } else {
+                    Stmt::Switch(Expr::var(&sel), vec![first, Case { labels: vec![2], body: last_body }], None)
+                };
+                let mut out = vec![sw];
+                if !px && self.g.chance(1, 2) {
+                    out.push(Stmt::Expr(Expr::assign(LValue::Var("X".into()), Expr::lit(0))));
+                }
+                out.push(Stmt::Expr(Expr::assign(LValue::Var(c), Expr::lit(kk))));
+                out
+            }
             14 | 15 | 16 => {
                 // the same constant assigned twice with something in between that changes the flags
                 // but not A, then a flag test of the second destination
@@ -2009,6 +2064,33 @@ impl<'g, 'r> ProgGen<'g, 'r> {
             let first_non_decl = body.iter().position(|s| !matches!(s, Stmt::Decl(_))).unwrap_or(body.len());
             body.insert(pos.max(first_non_decl), wrapped);
         }
+        // a signed char parameter used where its sign matters (comparison, widening, right shift)
+        if let Some((pn, _)) = params.iter().find(|(_, t)| *t == Ty::I8).cloned() {
+            if self.g.chance(1, 2) {
+                let tg: Vec<(String, Ty)> = self.globals.iter().filter(|g| g.kind == VarKind::Scalar && !g.name.starts_with("hv") && g.ty != Ty::Ptr).map(|g| (g.name.clone(), g.ty)).collect();
+                let t8: Vec<String> = tg.iter().filter(|(_, t)| is8(*t)).map(|(n, _)| n.clone()).collect();
+                let t16: Vec<String> = tg.iter().filter(|(_, t)| t.bits() == 16).map(|(n, _)| n.clone()).collect();
+                let first_non_decl = body.iter().position(|s| !matches!(s, Stmt::Decl(_))).unwrap_or(body.len());
+                let st = match self.g.below(3) {
+                    0 if !t8.is_empty() => {
+                        let t = self.g.pick(&t8).clone();
+                        let k = self.g.range(1, 20) as i32;
+                        Some(Stmt::If(
+                            Expr::bin(*self.g.pick(&[BinOp::Lt, BinOp::Ge]), Expr::var(&pn), Expr::lit(k)),
+                            Box::new(Stmt::Expr(Expr::assign(LValue::Var(t.clone()), Expr::lit(1)))),
+                            Some(Box::new(Stmt::Expr(Expr::assign(LValue::Var(t), Expr::lit(2))))),
+                        ))
+                    }
+                    1 if !t16.is_empty() => Some(Stmt::Expr(Expr::assign(LValue::Var(self.g.pick(&t16).clone()), Expr::var(&pn)))),
+                    _ if !t8.is_empty() => Some(Stmt::Expr(Expr::assign(LValue::Var(self.g.pick(&t8).clone()), Expr::bin(BinOp::Shr, Expr::var(&pn), Expr::lit(1))))),
+                    _ => None,
+                };
+                if let Some(st) = st {
+                    self.label("signed-parameter-use");
+                    body.insert(first_non_decl, st);
+                }
+            }
+        }
         if let Some(t) = ret {
             Self::new_expr_ctx(&mut fc);
             fc.scopes.push(vec![]);
@@ -2048,7 +2130,24 @@ impl<'g, 'r> ProgGen<'g, 'r> {
                 body.insert(first_non_decl, test);
             }
         }
-        if ret.is_none() && self.g.chance(1, 4) {
+        if ret.is_none() && !is_main && self.cfg.asm_menu && self.g.chance(1, 4) {
+            // a void helper that ends with inline assembler, after a conditional early return
+            self.label("trailing-asm-after-early-return");
+            Self::new_expr_ctx(&mut fc);
+            fc.scopes.push(vec![]);
+            let c = self.condition(&mut fc, 1);
+            let tgt: Vec<String> = self.globals.iter().filter(|g| g.kind == VarKind::Scalar && is8(g.ty) && g.mem == MemQual::Default && !g.name.starts_with("hv")).map(|g| g.name.clone()).collect();
+            fc.scopes.pop();
+            if !tgt.is_empty() {
+                let t = self.g.pick(&tgt).clone();
+                let k = self.g.range(0, 200) as i32;
+                let first_non_decl = body.iter().position(|s| !matches!(s, Stmt::Decl(_))).unwrap_or(body.len());
+                let pos = first_non_decl + self.g.below(body.len() - first_non_decl + 1);
+                body.insert(pos, Stmt::If(c, Box::new(Stmt::Block(vec![Stmt::Expr(Expr::assign(LValue::Var(t.clone()), Expr::lit(k))), Stmt::Return(None)])), None));
+                let a = self.asm_stmt(&mut fc);
+                body.push(a);
+            }
+        } else if ret.is_none() && self.g.chance(1, 4) {
             let mut ops: Vec<String> =
                 self.globals.iter().filter(|g| g.kind == VarKind::Scalar && is8(g.ty) && !g.name.starts_with("hv")).map(|g| g.name.clone()).collect();
             ops.push("X".into());
